@@ -27,6 +27,7 @@ type c06Case struct {
 	Attempts []c06Fault `json:"attempts"`
 	HoldMs   int        `json:"hold_ms"`
 	HeaderMs int        `json:"header_ms"`
+	LockStep bool       `json:"lock_step,omitempty"`
 	VMID     bool       `json:"vm_identity,omitempty"`
 }
 
@@ -176,6 +177,15 @@ func C06(r *core.Run) {
 			pat = []c06Fault{{Kind: kind, At: at}, e5, {Kind: kind, At: at}, e5, {Kind: kind, At: at}, e5, okF}
 		}
 		cases = append(cases, c06Case{ID: id, BodyLen: []int{3000, 65536, 10, 5000, 2000, 3900}[i], Chunks: 2 + i%3, DelayMs: []int{20, 5, 0, 10, 20, 5}[i], Attempts: pat})
+	}
+	// a producer that waits for its consumer: the first attempt is turned down after the proxy has received the first part; the
+	// handler writes the next part only when a later attempt has delivered the first one again
+	// (only replies at HTTP level: after a reset or a close net/http's client does not return before its blocked read of
+	// the body does, which no caller can shorten; and only first parts that fit the replay buffer)
+	for i, at := range []int{120, 250, 400, 700} {
+		id := fmt.Sprintf("s%d-%d", r.Seed, len(cases))
+		cases = append(cases, c06Case{ID: id, BodyLen: []int{3000, 900, 6000, 2400}[i], Chunks: 3, LockStep: true,
+			Attempts: []c06Fault{{Kind: "e5xx", At: at, KeepOpen: i%2 == 0}, okF}})
 	}
 	// an early 5xx with a reply body from a proxy that then stops reading without closing, while a response far larger
 	// than the socket buffers is streaming: the handler must still be released
